@@ -67,6 +67,16 @@ class AlignIndex(Contract):
         yield "image_is_self_or_nearest_permitted_target_within_tolerance", is_image(out, x, T, tol, method)
 
 
+def _align_index_sweep(self, tier, seed):
+    from contracts.common import native_sweep, sorted_env
+
+    cases = [{"n": n, "method": m} for n in ((15, 60) if tier == "quick" else (15, 60, 200)) for m in METHODS]
+    return native_sweep(self, cases, envs=lambda case, rng: dict(sorted_env("t", case["n"], rng, -10, 10), tol=round(rng.uniform(0, 1.5), 3)), seed=seed)
+
+
+AlignIndex.bounded_checks = _align_index_sweep
+
+
 class AlignedGlobalAxes(Contract):
     """create_aligned_global_axes with symbolic axes; align_index is recorded (real callee runs)."""
 
